@@ -19,10 +19,10 @@ from checks import c12
 PID = "C13"
 RULE = ("configurations of (motion, series length 2..6, time stamps, per-frame renumbering, disappearing cell, b_matrix, adimensional, normalisation) within the deviation bound; "
         "every frame and every vertex checked in each; non-trivial = some vertex moves; classes = config signature")
-BOUND = {"quick": "deviation bound 2 on two tissues (every frame x every vertex in each state; the right-hand side is read both from set_velocity_matrix and from what ForSys.solve_stress used)", "thorough": "deviation bound 3 on four tissues"}
+BOUND = {"quick": "deviation bound 2 on two tissues (every frame x every vertex in each state; time stamps incl. negative ones with 0.0 on a later frame; cm on and off; the right-hand side is read both from set_velocity_matrix and from what ForSys.solve_stress used)", "thorough": "deviation bound 3 on four tissues"}
 ASSUMPTIONS = ["the partner of a vertex is taken from the implementation's own correspondence (C12 judges the correspondence itself)",
                "comparison tolerance 1e-9 relative (velocities), 1e-4 absolute on the 4-decimal rounded public velocity matrices"]
-REQUIRED_TAGS = {"all": ["unequal_times", "renumbered", "disappearing", "velocity_mode", "static_mode", "adimensional", "normalisation", "last_frame", "no_partner", "id0_junction_renumbered", "rhs_through_solve_stress"]}
+REQUIRED_TAGS = {"all": ["unequal_times", "renumbered", "disappearing", "velocity_mode", "static_mode", "adimensional", "normalisation", "last_frame", "no_partner", "id0_junction_renumbered", "rhs_through_solve_stress", "cm"]}
 
 TIMES = {"equal": lambda n: [float(i) for i in range(n)],
          "unequal": lambda n: [0.0, 1.0, 4.0, 4.5, 6.5, 10.0][:n],
@@ -46,7 +46,7 @@ class Velocities(ProductSystem):
         return self._t
 
     def axes(self, base):
-        return {"motion": ["random_like", "flow_d", "shear", "breathe", "rest"], "L": [3, 2, 4, 6], "times": ["equal", "unequal", "offset", "tiny", "huge", "negative"],
+        return {"motion": ["random_like", "flow_d", "shear", "breathe", "rest"], "L": [3, 2, 4, 6], "times": ["equal", "unequal", "offset", "tiny", "huge", "negative"], "cm": [False, True],
                 "vm0": VMAPS, "vm1": VMAPS, "vm2": VMAPS, "drop": [None, 1, 2], "b": ["velocity", None], "adim": [False, True], "norm": [1, 0, 2.5],
                 "unit": [1.0, 1e3, 1e-3, 512.0]}
 
@@ -110,7 +110,10 @@ class Velocities(ProductSystem):
             a_t = ats[t]
             dz = {j: fields[t][j] for j in a_t["J"]}
             spec.append({"at": a_t, "k": 1, "cmap": cm, "post": SC.displace_post(a_t, dz), "time": times[t], "lab": SC.lab_for(vmaps[t % 3])})
-        s, infos, ex = SC.build_series(spec, cm=False)
+        # cm=True: the library re-centres every frame in place before tracking; positions are read from the frames afterwards
+        s, infos, ex = SC.build_series(spec, cm=bool(cfg.get("cm")))
+        if cfg.get("cm"):
+            tags.append("cm")
         if ex is not None:
             return {"viol": [{"what": "ForSys construction raised", "detail": fsutil.exc_str(ex)}], "tags": tags, "cls": "exc"}
         ts = s.mesh
